@@ -756,8 +756,9 @@ impl LowerWithEnv for Ty {
                     TypeLookup::Closure(id) => tykind!(env.closure_kind(id), Closure, id),
                     TypeLookup::Opaque(id) => tykind!(env.opaque_kind(id), OpaqueType, id),
                     TypeLookup::Coroutine(id) => tykind!(env.coroutine_kind(id), Coroutine, id),
+                    // A foreign type takes no parameters and a trait is not a type at all.
                     TypeLookup::Foreign(_) | TypeLookup::Trait(_) => {
-                        panic!("Unexpected apply type")
+                        return Err(RustIrError::NotStruct(name.clone()))
                     }
                 }
             }
